@@ -1,2 +1,100 @@
-def gen_cases(r, scale): return []
-def correspond(ctx, exe, model_exe, cases): return [], []
+"""generator + two-sided run for the L1 index scripts of C07 (harness_idx.cpp <-> ocaml/idx_driver.ml)"""
+import os, re
+
+U_MENU = [[0], [0, 1]]
+M_MENU = [[1], [2], [1, 2]]
+
+
+def gen_case(r, kind):
+    traits = r.choice([0, 0, 1, 2])
+    ops = []
+    live = []; dead = list(range(0, 1000)); content = {}
+    uniq = [u for u in U_MENU if r.chance(1, 2)]; multi = [m for m in M_MENU if r.chance(3, 4)] or [[1]]
+    nk1 = r.choice([1, 2, 4, 12]); nk2 = r.choice([1, 3, 5])
+    target = {'small': r.range(3, 14), 'mid': r.range(60, 150), 'big': r.choice([66, 130, 194, 200, 322, 330, 450])}[kind]
+    nops = {'small': r.range(20, 60), 'mid': target + r.range(60, 160), 'big': target + r.range(80, 200)}[kind]
+    fault = {'small': 30, 'mid': 10, 'big': 3}[kind]
+    pend = [('NU', u) for u in uniq] + [('NM', m) for m in multi]
+    when = {id(p): (0 if r.chance(2, 3) else r.range(0, nops - 1)) for p in pend}
+    fresh = [0]
+
+    def f(): return 1 if r.below(100) < fault else 0
+
+    def take():
+        # addresses are not allocated in order: MultiHash sorts by address
+        i = dead.pop(r.below(min(len(dead), 40)) if r.chance(1, 2) else r.below(len(dead)))
+        return i
+
+    def newcontent():
+        if uniq and r.chance(1, 8) and live:
+            k0 = content[r.choice(live)][0]
+        else:
+            k0 = fresh[0]; fresh[0] += 1
+        return [k0, r.below(nk1), r.below(nk2)]
+
+    for step in range(nops):
+        for p in pend:
+            if when[id(p)] == step: ops.append('%s %s' % (p[0], ' '.join(map(str, p[1]))))
+        n = len(live); t = r.below(100)
+        growing = n < target and step < target + 30
+        if n == 0 or t < (80 if growing and kind != 'small' else 35):
+            i = take(); c = newcontent(); content[i] = c
+            ops.append('W %d %d %d %d' % (i, *c)); ops.append('ADD %d %d' % (f(), i)); live.append(i)   # (a refused add leaves i dead in both runs)
+        elif t < 50:
+            i = r.choice(live); live.remove(i); ops.append('REM %d %d' % (f(), i))
+        elif t < 60:
+            i = r.choice(live); j = take(); c = newcontent()
+            if r.chance(1, 3): c = list(content[i]); c[r.range(1, 2)] = r.below(3)
+            content[j] = c; ops.append('W %d %d %d %d' % (j, *c)); ops.append('UPD %d %d %d' % (f(), i, j))
+            live.remove(i); live.append(j)
+        elif t < 85:
+            i = r.choice(live); col = r.choice([0, 1, 1, 2, 2])
+            v = (fresh[0] if r.chance(2, 3) else content[r.choice(live)][0]) if col == 0 else r.below([0, nk1 + 2, nk2 + 2][col])
+            if col == 0 and v == fresh[0]: fresh[0] += 1
+            ops.append('UPC %d %d %d %d %d' % (f(), i, col, v, 1 if r.chance(1, 12) else 0))
+        elif t < 88 and kind != 'small':
+            m = r.choice([2, 3, 5, 7]); ops.append('FLT %d %d' % (m, r.below(m)))
+            live = [x for x in live if x % m != ops[-1].split()[2] and x % m != int(ops[-1].split()[2])]
+        elif t < 94:
+            j = r.below(3); ops.append('FM %d %s' % (j, ' '.join(str(r.below(5)) for _ in range(r.range(1, 2)))))
+        else:
+            j = r.below(2); ops.append('FU %d %s' % (j, ' '.join(str(r.below(max(1, fresh[0]))) for _ in range(r.range(1, 2)))))
+        # the generator's view of `live` may drift after refused ops; both sides answer "invalid" consistently
+    return 'X %d | ' % traits + ' | '.join(ops)
+
+
+def gen_cases(r, scale):
+    cases = []
+    # translator validation of the generated segment arithmetic on a boundary grid
+    grid = sorted(set([0, 1, 2, 63, 64, 65, 127, 128, 191, 192, 193, 319, 320, 321, 447, 448, 449, 703, 704, 705, 1000, 4095, 4096, 65535, 65536]
+                      + [2 ** k + d for k in range(6, 62) for d in (-1, 0, 1)] + [64 * m for m in range(1, 200)]))
+    for i in range(0, len(grid), 40):
+        cases.append('X 0 | ' + ' | '.join('SEG %d' % n for n in grid[i:i + 40]))
+    for _ in range(60 * scale): cases.append(gen_case(r, 'small'))
+    for _ in range(14 * scale): cases.append(gen_case(r, 'mid'))
+    for _ in range(8 * scale): cases.append(gen_case(r, 'big'))
+    return cases
+
+
+def correspond(ctx, exe, model_exe, cases):
+    """returns (oracle failures [(case, out, why)], mismatches [(case, impl, model)])"""
+    path = os.path.join(ctx.build, 'index.cases'); open(path, 'w').write('\n'.join(cases) + '\n')
+    rc, lines, err = ctx.run_lines([exe], path)
+    ctx.evaluations += len(cases)
+    ctx.coverage['harness_idx_stats'] = err.strip().splitlines()[-1] if err.strip() else ''
+    bad = []
+    if rc != 0:
+        bad.append((cases[min(len(lines), len(cases) - 1)], err[-400:], 'harness_idx crashed or was killed (exit %s): %s' % (rc, err.strip().splitlines()[-1][-200:] if err.strip() else '')))
+    for c, out in zip(cases, lines):
+        m = re.search(r'!ORACLE-FAIL:(.*)', out)
+        if m: bad.append((c, out[-300:], m.group(1)[:300]))
+        if ('conflict' in out) or ('exn' in out) or re.search(r':(\d+ ){64}', out): ctx.nontrivial.add(c)
+    mism = []
+    if model_exe:
+        rc2, mlines, err2 = ctx.run_lines([model_exe], path)
+        if rc2 != 0: ctx.stage('model-run-idx', False, err2[-500:])
+        for i, c in enumerate(cases):
+            a = lines[i] if i < len(lines) else '<missing>'; b = mlines[i] if i < len(mlines) else '<missing>'
+            if a != b: mism.append((c, a, b))
+        ctx.traces_validated += len(cases) - len(mism)
+    return bad, mism
